@@ -3,8 +3,11 @@
 
    Outside dry-run, for the set `aids` of apply ids of the plan, the run state
    satisfies (o4_Inv):
-   - V : the observation cache is exactly the list of delivered observations
-         of the (reversed) trace, newest first;
+   - V : for every object outside the set Dn of objects whose wait task is over,
+         the observation cache answers like the list of delivered observations
+         of the (reversed) trace, newest first (the apply-time mutator Puts what it
+         reads about its sources into the same cache; a source has passed the
+         dependency filter, so its wait is over: R below);
    - G : every Successful wait event of an object e of `aids` in the trace is
          justified: the cache of that moment holds for e an observation that
          is Current, carries a body, generation >= 2, and whose UID (if not
@@ -68,8 +71,17 @@ Definition o4_okobs (cl : cluster) (e : id) (o : sobs) : Prop :=
   s_st o = SCurrent /\ s_body o = true /\ (2 <= s_gen o)%Z /\
   exists c', fo cl e = Some c' /\ (s_uid o = 0%N \/ c_uid c' = 0%N \/ c_uid c' = s_uid o).
 
+Lemma o4_cache_get_skip (ex c : list sobs) i : (forall o, In o ex -> s_id o <> i) -> cache_get (ex ++ c) i = cache_get c i.
+Proof.
+  induction ex as [|x t IH]; intros H; [reflexivity|]. cbn [app cache_get].
+  destruct (Nat.eqb (s_id x) i) eqn:E; [apply Nat.eqb_eq in E; exfalso; exact (H x (or_introl eq_refl) E)|].
+  apply IH. intros o Ho. apply H. right. exact Ho.
+Qed.
+
 Section Inv.
   Variable aids : list id.
+  (* objects whose wait task is over *)
+  Variable Dn : list id.
 
   (* objects of the apply set are never deleted and keep their UID *)
   Definition o4_Cl (cl cl' : cluster) : Prop :=
@@ -106,7 +118,8 @@ Section Inv.
     split; [exact A|]. split; [exact B|]. split; [exact D|]. exists c''. split; [exact F'|]. rewrite U'. exact U.
   Qed.
 
-  Definition o4_V (s : rst) : Prop := r_cache s = o4_delivs (r_tr s).
+  Definition o4_V (s : rst) : Prop :=
+    forall i, ~ In i Dn -> cache_get (r_cache s) i = cache_get (o4_delivs (r_tr s)) i.
   Definition o4_G (s : rst) : Prop :=
     forall l1 g e l2, r_tr s = l1 ++ IEv (EWait g e WOk) :: l2 -> In e aids ->
       o4_okobs (r_cl s) e (cache_get (o4_delivs l2) e).
@@ -124,7 +137,14 @@ Section Inv.
   (* ---- the trace part: extension by items that are neither deliveries nor Successful wait events *)
   Lemma o4_V_ext s s' l : r_cache s' = r_cache s -> r_tr s' = l ++ r_tr s -> Forall o4_ndel l -> o4_V s -> o4_V s'.
   Proof.
-    unfold o4_V. intros EC ET F H. rewrite EC, ET, o4_delivs_app, (o4_delivs_ndel l F). exact H.
+    unfold o4_V. intros EC ET F H i Hi. rewrite EC, ET, o4_delivs_app, (o4_delivs_ndel l F). exact (H i Hi).
+  Qed.
+  (* what the mutator Put on top of the cache is about objects of Dn only *)
+  Lemma o4_V_ext_puts s s' ex l : r_cache s' = ex ++ r_cache s -> (forall o, In o ex -> In (s_id o) Dn) ->
+    r_tr s' = l ++ r_tr s -> Forall o4_ndel l -> o4_V s -> o4_V s'.
+  Proof.
+    unfold o4_V. intros EC HX ET F H i Hi. rewrite EC, ET, o4_delivs_app, (o4_delivs_ndel l F). cbn [app].
+    rewrite o4_cache_get_skip; [exact (H i Hi)|]. intros o Ho E. apply Hi. rewrite <- E. exact (HX o Ho).
   Qed.
 
   Lemma o4_G_ext s s' l : o4_Cl (r_cl s) (r_cl s') -> r_tr s' = l ++ r_tr s -> Forall o4_nwok l -> o4_G s -> o4_G s'.
@@ -225,7 +245,7 @@ Section Inv.
 
   (* a wait event with its reconcile update: Successful only with its justification *)
   Lemma o4_inv_wev s g i rc w :
-    (w = WOk -> In i aids -> o4_okobs (r_cl s) i (cache_get (r_cache s) i)) ->
+    (w = WOk -> In i aids -> ~ In i Dn /\ o4_okobs (r_cl s) i (cache_get (r_cache s) i)) ->
     o4_Inv s -> o4_Inv (ev (rec_reconcile s i rc) (EWait g i w)).
   Proof.
     intros J [V G T1 T2a T2g]. destruct (o4_rec_reconcile_fields s i rc) as [EC [EK [ET EV]]].
@@ -234,7 +254,8 @@ Section Inv.
     - unfold o4_V in *. cbn [ev emit r_cache r_tr]. rewrite EK, ET. exact V.
     - intros l1 g' e l2 E He. cbn [ev emit r_tr r_cl] in *. rewrite EC. rewrite ET in E.
       destruct l1 as [|y l1]; cbn [app] in E.
-      + injection E as E1 E2 E3 E4. subst g' e w l2. unfold o4_V in V. rewrite <- V. exact (J eq_refl He).
+      + injection E as E1 E2 E3 E4. subst g' e w l2. unfold o4_V in V. destruct (J eq_refl He) as [ND JO].
+        rewrite <- (V i ND). exact JO.
       + injection E as _ E. exact (G l1 g' e l2 E He).
     - intros e He. rewrite EV'. exact (T1 e He).
     - intros e st u He E. rewrite EV' in E. cbn [ev emit r_cl]. rewrite EC. exact (T2a e st u He E).
@@ -254,7 +275,8 @@ Section Inv.
                           (d :: r_cache (if b then ev (emit s (IDeliv d)) (EStatus (s_id d) (s_st d)) else emit s (IDeliv d)))) = r_tbl s)
       by (destruct b; reflexivity).
     constructor.
-    - unfold o4_V in *. destruct b; cbn [set_cache ev emit r_cache r_tr o4_delivs flat_map app]; rewrite V; reflexivity.
+    - unfold o4_V in *. intros i Hi.
+      destruct b; cbn [set_cache ev emit r_cache r_tr o4_delivs flat_map app cache_get]; rewrite (V i Hi); reflexivity.
     - intros l1 g e l2 E He. rewrite EC.
       assert (X : exists l, r_tr (set_cache (if b then ev (emit s (IDeliv d)) (EStatus (s_id d) (s_st d)) else emit s (IDeliv d))
                           (d :: r_cache (if b then ev (emit s (IDeliv d)) (EStatus (s_id d) (s_st d)) else emit s (IDeliv d)))) = l ++ r_tr s /\
@@ -274,10 +296,14 @@ End Inv.
 Section Ops.
   Variable sc : scenario.
   Variable aids : list id.
+  Variable Dn : list id.
   Hypothesis HD : is_dry (o_dry (sc_opts sc)) = false.
 
-  Notation Inv := (o4_Inv aids).
+  Notation Inv := (o4_Inv aids Dn).
   Notation gstep := (o4_gstep aids).
+
+  (* R: an object whose wait task is still to come (or running) has no Successful reconcile status yet *)
+  Definition o4_R (s : rst) : Prop := forall i, ~ In i Dn -> rc s i <> Some RSucceeded.
 
   (* why a Successful wait event of an AllCurrent wait task is justified *)
   Lemma o4_wok_just s i u : Inv s -> In i aids -> tv s i = Some (SApply, ASucceeded, u) ->
@@ -412,7 +438,7 @@ Section Ops.
     let s' := apply_one sc pl g s p in
     exists a u gen lt,
       r_tbl s' = set_status Nat.eqb (r_tbl s) (mkRec i SApply a RPending u gen) /\
-      a <> APending /\ r_cache s' = r_cache s /\
+      a <> APending /\
       r_tr s' = IEv (EApply g i (ast_of a)) :: lt ++ r_tr s /\ Forall (snap2 (r_cl s) (r_cl s')) lt /\
       (a = ASucceeded -> gen = harness_gen /\ applied (r_cl s) (r_cl s') i u) /\
       (a <> ASucceeded -> r_cl s' = r_cl s).
@@ -421,37 +447,46 @@ Section Ops.
     destruct (negb (kind_known sc (r_known s) (p_id p))).
     { cbn [fst snd log_req emit ev rec_add set_tbl set_cl add_aband r_cl r_tbl r_aband r_tr r_cache].
       exists AFailed, 0%N, 0%Z, [].
-      split; [reflexivity|]. split; [discriminate|]. split; [reflexivity|]. split; [reflexivity|]. split; [constructor|].
+      split; [reflexivity|]. split; [discriminate|]. split; [reflexivity|]. split; [constructor|].
       split; [discriminate|reflexivity]. }
-    pose proof (same4_policy_apply_filter sc s (p_id p)) as P. pose proof (o4_c_policy_apply_filter s (p_id p)) as PC.
-    destruct (policy_apply_filter sc s (p_id p)) as [s1 f1]. cbn [fst] in P, PC. destruct P as [P1 [P2 [P3 P4]]].
+    pose proof (same4_policy_apply_filter sc s (p_id p)) as P.
+    destruct (policy_apply_filter sc s (p_id p)) as [s1 f1]. cbn [fst] in P. destruct P as [P1 [P2 [P3 P4]]].
     destruct (match f1 with FPass => _ | _ => _ end).
-    - pose proof (kubectl_apply_spec sc s1 l) as K. unfold ka_spec2 in K. pose proof (o4_c_kubectl_apply s1 l) as KC.
-      destruct (kubectl_apply sc s1 l) as [s2 r]. cbn [fst snd] in K, KC.
-      destruct K as [K1 [K2 [lt [K3 [K4 K5]]]]]. rewrite P1 in K4.
+    - pose proof (same4_mutate sc s1 l) as M.
+      destruct (mutate sc s1 l) as [sm okm]. cbn [fst] in M. destruct M as [M1 [M2 [M3 M4]]].
+      destruct okm; cbn [negb].
+      2:{ cbn [fst snd log_req emit ev rec_add set_tbl set_cl add_aband r_cl r_tbl r_aband r_tr r_cache].
+          exists AFailed, 0%N, 0%Z, []. rewrite M1, M2, M4, P1, P2, P4.
+          split; [reflexivity|]. split; [discriminate|]. split; [reflexivity|]. split; [constructor|].
+          split; [discriminate|reflexivity]. }
+      pose proof (kubectl_apply_spec sc sm l) as K. unfold ka_spec2 in K.
+      destruct (kubectl_apply sc sm l) as [s2 r]. cbn [fst snd] in K.
+      destruct K as [K1 [K2 [lt [K3 [K4 K5]]]]]. rewrite M1, P1 in K4.
       destruct r as [u|]; cbn [fst snd log_req emit ev rec_add set_tbl set_cl add_aband r_cl r_tbl r_aband r_tr r_cache].
       + exists ASucceeded, u, harness_gen, lt.
-        split; [rewrite K1, P2; reflexivity|]. split; [discriminate|]. split; [congruence|].
-        split; [rewrite K3, P4; reflexivity|]. split; [exact K4|]. split; [|intros X; congruence].
-        intros _. split; [reflexivity|]. rewrite <- EI, <- P1.
-        destruct K5 as [[D _]|[_ C]]; [rewrite HD in D; discriminate|exact C].
+        split; [rewrite K1, M2, P2; reflexivity|]. split; [discriminate|].
+        split; [rewrite K3, M4, P4; reflexivity|]. split; [exact K4|]. split; [|intros X; congruence].
+        intros _. split; [reflexivity|]. rewrite <- EI, <- P1, <- M1.
+        destruct K5 as [[DD _]|[_ C]]; [rewrite HD in DD; discriminate|exact C].
       + exists AFailed, 0%N, 0%Z, lt.
-        split; [rewrite K1, P2; reflexivity|]. split; [discriminate|]. split; [congruence|].
-        split; [rewrite K3, P4; reflexivity|]. split; [exact K4|]. split; [discriminate|]. intros _. congruence.
+        split; [rewrite K1, M2, P2; reflexivity|]. split; [discriminate|].
+        split; [rewrite K3, M4, P4; reflexivity|]. split; [exact K4|]. split; [discriminate|]. intros _. congruence.
     - cbn [fst snd log_req emit ev rec_add set_tbl set_cl add_aband r_cl r_tbl r_aband r_tr r_cache].
       exists ASkipped, 0%N, 0%Z, []. rewrite P1, P2, P4.
-      split; [reflexivity|]. split; [discriminate|]. split; [exact PC|]. split; [reflexivity|]. split; [constructor|].
+      split; [reflexivity|]. split; [discriminate|]. split; [reflexivity|]. split; [constructor|].
       split; [discriminate|reflexivity].
     - cbn [fst snd log_req emit ev rec_add set_tbl set_cl add_aband r_cl r_tbl r_aband r_tr r_cache].
       exists AFailed, 0%N, 0%Z, []. rewrite P1, P2, P4.
-      split; [reflexivity|]. split; [discriminate|]. split; [exact PC|]. split; [reflexivity|]. split; [constructor|].
+      split; [reflexivity|]. split; [discriminate|]. split; [reflexivity|]. split; [constructor|].
       split; [discriminate|reflexivity].
   Qed.
 
   (* an object of an apply layer as the plan builds it *)
-  Definition o4_lok (p : pobj) : Prop := exists l, p_local p = Some l /\ l_id l = p_id p /\ In (p_id p) aids.
+  Definition o4_lok (pl : plan) (p : pobj) : Prop :=
+    exists l, p_local p = Some l /\ l_id l = p_id p /\ In (p_id p) aids /\
+              incl (l_deps l) (g_deps (pl_graph pl) (p_id p)).
 
-  Lemma o4_apply_one_tv pl g s p j : o4_lok p ->
+  Lemma o4_apply_one_tv pl g s p j : o4_lok pl p ->
     exists a u, a <> APending /\
       tv (apply_one sc pl g s p) j = if Nat.eqb (p_id p) j then Some (SApply, a, u) else tv s j.
   Proof.
@@ -459,10 +494,26 @@ Section Ops.
     cbv zeta in ET. exists a, u. split; [exact NA|]. unfold tv. rewrite ET, tvl_set_status. reflexivity.
   Qed.
 
-  Lemma o4_inv_apply_one pl g s p : o4_lok p -> Inv s -> Inv (apply_one sc pl g s p).
+  (* the reconcile field: the object applied is back to Pending, nothing else moves *)
+  Lemma o4_R_apply_one pl g s p : o4_lok pl p -> o4_R s -> o4_R (apply_one sc pl g s p).
   Proof.
-    intros [l [EL [EI Hi]]] [V G T1 T2a T2g].
-    destruct (o4_apply_one_spec pl g s p l EL EI) as [a [u [gen [lt [ET [NA [EC [ETR [SF [SU NS]]]]]]]]]].
+    intros [l [EL [EI _]]] R i Hi. destruct (o4_apply_one_spec pl g s p l EL EI) as [a [u [gen [lt [ET _]]]]].
+    cbv zeta in ET. unfold rc. rewrite ET, rcl_set_status. cbn [r_id r_rec].
+    destruct (Nat.eqb (p_id p) i); [discriminate|exact (R i Hi)].
+  Qed.
+
+  Lemma o4_inv_apply_one pl g s p : o4_lok pl p -> o4_R s -> Inv s -> Inv (apply_one sc pl g s p).
+  Proof.
+    intros [l [EL [EI [Hi HG]]]] R [V G T1 T2a T2g].
+    destruct (o4_apply_one_spec pl g s p l EL EI) as [a [u [gen [lt [ET [NA [ETR [SF [SU NS]]]]]]]]].
+    (* the sources the mutator Put into the cache passed the dependency filter: reconciled, hence in Dn *)
+    destruct (cache_apply_one sc pl g s p) as [ex [EC HX]].
+    assert (EXD : forall o, In o ex -> In (s_id o) Dn).
+    { intros o Ho. destruct (HX o Ho) as [l0 [EL0 [_ [HS [_ DF]]]]]. rewrite EL in EL0. injection EL0 as <-.
+      destruct (dep_filter_pass_rec sc pl _ _ _ DF (s_id o) (HG _ HS)) as [_ [r [Lr [_ [_ RS]]]]].
+      destruct RS as [X|RS]; [rewrite HD in X; discriminate|].
+      destruct (in_dec Nat.eq_dec (s_id o) Dn) as [Y|Y]; [exact Y|exfalso]. apply (R _ Y).
+      unfold rc, rcl. unfold id in *. rewrite Lr. cbn [option_map]. unfold id in *. rewrite RS. reflexivity. }
     cbv zeta in *. destruct (o4_snap2_boring _ _ _ SF) as [F1 F2].
     assert (TV : forall j, tv (apply_one sc pl g s p) j = if Nat.eqb (p_id p) j then Some (SApply, a, u) else tv s j)
       by (intros j; unfold tv; rewrite ET, tvl_set_status; reflexivity).
@@ -471,7 +522,7 @@ Section Ops.
       - apply actuation_eqb_eq in EA. destruct (SU EA) as [_ AP]. exact (o4_Cl_applied aids _ _ _ _ AP).
       - apply o4_Cl_eq. apply NS. intros X. subst a. discriminate EA. }
     constructor.
-    - apply (o4_V_ext s _ (IEv (EApply g (p_id p) (ast_of a)) :: lt) EC ETR); [constructor; [exact I|exact F2]|exact V].
+    - apply (o4_V_ext_puts Dn s _ ex (IEv (EApply g (p_id p) (ast_of a)) :: lt) EC EXD ETR); [constructor; [exact I|exact F2]|exact V].
     - apply (o4_G_ext aids s _ (IEv (EApply g (p_id p) (ast_of a)) :: lt) C ETR); [constructor; [exact I|exact F1]|exact G].
     - intros e He. rewrite TV. destruct (Nat.eqb (p_id p) e); [exists a, u; reflexivity|exact (T1 e He)].
     - intros e st u0 He E. rewrite TV in E. destruct (Nat.eqb (p_id p) e) eqn:EE.
